@@ -90,7 +90,7 @@ func genR(t *rapid.T, label string) ROpts {
 		Path:     rapid.SampledFrom([]string{"read", "pull", "pull"}).Draw(t, label+"path"),
 	}
 	if r.Path == "pull" {
-		r.Hold = rapid.SampledFrom([]int{0, 0, 1, 2, 5, 1000}).Draw(t, label+"hold")
+		r.Hold = rapid.SampledFrom([]int{0, 0, 1, 2, 5, 64}).Draw(t, label+"hold")
 	}
 	r.Chunk = rapid.SampledFrom([]int{0, 0, 0, 1, 2, 5, 100, 5000}).Draw(t, label+"chunk")
 	return r
@@ -187,6 +187,14 @@ func genCase(t *rapid.T) Case {
 	c.PrePop = rapid.SampledFrom([]int{0, 0, 1, 2}).Draw(t, "prepop")
 	c.R1 = genR(t, "r1.")
 	c.R2 = genR(t, "r2.")
+	if c.Pad.Len > 0 {
+		// byte-at-a-time reads of a megabyte only cost time
+		for _, r := range []*ROpts{&c.R1, &c.R2} {
+			if r.Chunk > 0 && r.Chunk < 64 {
+				r.Chunk = 64
+			}
+		}
+	}
 	return c
 }
 
